@@ -65,6 +65,7 @@ static inline void urefcount_init(struct urefcount *refcount, urefcount_cb cb)
     assert(refcount != NULL);
     uatomic_init(&refcount->refcount, 1);
     refcount->cb = cb;
+    UPIPE_VERIF_REF(UVERIF_REF_INIT, refcount, cb != NULL);
 }
 
 /** @This resets a urefcount to 1.
@@ -84,6 +85,12 @@ static inline void urefcount_reset(struct urefcount *refcount)
  */
 static inline struct urefcount *urefcount_use(struct urefcount *refcount)
 {
+#ifdef UPIPE_VERIF
+    if (refcount != NULL) {
+        UPIPE_VERIF_YIELD(UVERIF_PLAIN_R, &refcount->cb);
+        UPIPE_VERIF_REF(UVERIF_REF_USE, refcount, refcount->cb != NULL);
+    }
+#endif
     if (refcount != NULL && refcount->cb != NULL) {
         uatomic_fetch_add(&refcount->refcount, 1);
         return refcount;
@@ -98,10 +105,19 @@ static inline struct urefcount *urefcount_use(struct urefcount *refcount)
  */
 static inline void urefcount_release(struct urefcount *refcount)
 {
+#ifdef UPIPE_VERIF
+    if (refcount != NULL) {
+        UPIPE_VERIF_YIELD(UVERIF_PLAIN_R, &refcount->cb);
+        UPIPE_VERIF_REF(UVERIF_REF_RELEASE, refcount, refcount->cb != NULL);
+    }
+#endif
     if (refcount != NULL && refcount->cb != NULL &&
         uatomic_fetch_sub(&refcount->refcount, 1) == 1) {
+        UPIPE_VERIF_YIELD(UVERIF_PLAIN_R, &refcount->cb);
         urefcount_cb cb = refcount->cb;
+        UPIPE_VERIF_YIELD(UVERIF_PLAIN_W, &refcount->cb);
         refcount->cb = NULL; /* avoid triggering it twice */
+        UPIPE_VERIF_REF(UVERIF_REF_DESTROY, refcount, 0);
         cb(refcount);
     }
 }
